@@ -22,13 +22,15 @@ vars == <<l, prev>>
 TraceInit == l = 1 /\ prev = <<>>
 TraceNext ==
   /\ l <= Len(Trace)
-  /\ Trace[l].op \in {"batch", "cont"}
+  /\ Trace[l].op \in {"batch", "cont", "panic"}
   /\ l' = l + 1
-  /\ prev' = Trace[l].items[Len(Trace[l].items)]
+  /\ prev' = IF Trace[l].op = "panic" THEN prev ELSE Trace[l].items[Len(Trace[l].items)]
 TraceSpec == TraceInit /\ [][TraceNext]_vars
 
-Started == l > 1
+Started == l > 1 /\ Trace[l - 1].op # "panic"
 Cur == Trace[l - 1]
+(* encoding or decoding a value of the type faulted *)
+NoFault == (l > 1) => Trace[l - 1].op # "panic"
 (* the records to be compared pairwise: the carried one, then this line's *)
 Recs == IF Cur.op = "cont" /\ l > 2 THEN <<Trace[l - 2].items[Len(Trace[l - 2].items)]>> \o Cur.items ELSE Cur.items
 
@@ -68,7 +70,7 @@ OrderIso ==
          /\ VEq(a.in, b.in) <=> (a.enc = b.enc)
          /\ ~LexLess(b.enc, a.enc)
 
-Inv_C07 == FixedLen /\ RoundTripOK /\ OrderIso
+Inv_C07 == NoFault /\ FixedLen /\ RoundTripOK /\ OrderIso
 
 (* conformance to the transcribed design: informative *)
 Design_C07 ==
